@@ -389,6 +389,257 @@ pub fn clauses() -> Vec<Clause> {
     ]
 }
 
+/// Integer matrices (entries in [-9,9], generic or singular by construction)
+/// times a power of two 2^k on the native f32 / f64 types.  Every quantity of
+/// the statement (entries, determinant, inverse) stays in the normal range and
+/// the determinant is known exactly from an i128 Leibniz model, so
+/// "None exactly when the determinant is zero" is decided without tolerance;
+/// the inverse is judged by the double-double residuals of M*N and N*M against
+/// 1024 eps * sum_k |m_rk||n_kc| (the cofactor formula stays below 4 eps).
+pub fn native_scaled(cfg: &cgv_core::fw::RunCfg, extra: &mut cgv_core::fw::Extra) {
+    use cgmath::BaseFloat;
+    use cgv_core::acc::Acc;
+    use cgv_core::dd;
+    use serde_json::json;
+    fn idet(m: &[[i128; 4]; 4], n: usize) -> (i128, i128) {
+        let mut d = 0i128;
+        let mut abs = 0i128;
+        for (p, sg) in perms(n) {
+            let mut t = 1i128;
+            for c in 0..n {
+                t *= m[c][p[c]];
+            }
+            d += sg as i128 * t;
+            abs += t.abs();
+        }
+        (d, abs)
+    }
+    fn run<T: BaseFloat>(tag: &str, mi: &[[i128; 4]; 4], n: usize, k: i32, eps: f64, acc: &mut Acc, inputs: &dyn Fn() -> serde_json::Value) {
+        let sc = (2.0f64).powi(k);
+        let f = |x: i128| T::from(x as f64 * sc).unwrap();
+        let g = |x: T| x.to_f64().unwrap();
+        let (d, dabs) = idet(mi, n);
+        let want_det = d as f64 * (2.0f64).powi(k * n as i32);
+        let (det, inv): (f64, Option<Vec<Vec<f64>>>) = match n {
+            2 => {
+                let m = Matrix2::new(f(mi[0][0]), f(mi[0][1]), f(mi[1][0]), f(mi[1][1]));
+                (g(m.determinant()), m.invert().map(|i| (0..2).map(|c| (0..2).map(|r| g(i[c][r])).collect()).collect()))
+            }
+            3 => {
+                let m = Matrix3::new(
+                    f(mi[0][0]), f(mi[0][1]), f(mi[0][2]), f(mi[1][0]), f(mi[1][1]), f(mi[1][2]), f(mi[2][0]), f(mi[2][1]), f(mi[2][2]),
+                );
+                (g(m.determinant()), m.invert().map(|i| (0..3).map(|c| (0..3).map(|r| g(i[c][r])).collect()).collect()))
+            }
+            _ => {
+                let m = Matrix4::new(
+                    f(mi[0][0]), f(mi[0][1]), f(mi[0][2]), f(mi[0][3]), f(mi[1][0]), f(mi[1][1]), f(mi[1][2]), f(mi[1][3]),
+                    f(mi[2][0]), f(mi[2][1]), f(mi[2][2]), f(mi[2][3]), f(mi[3][0]), f(mi[3][1]), f(mi[3][2]), f(mi[3][3]),
+                );
+                (g(m.determinant()), m.invert().map(|i| (0..4).map(|c| (0..4).map(|r| g(i[c][r])).collect()).collect()))
+            }
+        };
+        acc.check(
+            &format!("{tag} {n}x{n} determinant of (integer matrix)*2^{k}"),
+            det,
+            want_det,
+            64.0 * eps * dabs as f64 * (2.0f64).powi(k * n as i32),
+            inputs,
+        );
+        acc.truth(
+            &format!("{tag} {n}x{n} scale 2^{k}: exact determinant {d}*2^{} but invert() is {}", k * n as i32, if inv.is_some() { "Some" } else { "None" }),
+            inv.is_some() == (d != 0),
+            inputs,
+        );
+        if let Some(nv) = inv {
+            for c in 0..n {
+                for r in 0..n {
+                    // (M*N)[c][r] = sum_k M[k][r] N[c][k];  (N*M)[c][r] = sum_k N[k][r] M[c][k]
+                    let mrow: Vec<f64> = (0..n).map(|kk| mi[kk][r] as f64 * sc).collect();
+                    let ncol: Vec<f64> = (0..n).map(|kk| nv[c][kk]).collect();
+                    let (v1, c1) = dd::dot(&mrow, &ncol);
+                    let nrow: Vec<f64> = (0..n).map(|kk| nv[kk][r]).collect();
+                    let mcol: Vec<f64> = (0..n).map(|kk| mi[c][kk] as f64 * sc).collect();
+                    let (v2, c2) = dd::dot(&nrow, &mcol);
+                    let id = if c == r { 1.0 } else { 0.0 };
+                    acc.check(&format!("{tag} {n}x{n} scale 2^{k}: (M*N)[{c}][{r}]"), v1, id, 1024.0 * eps * c1.max(1.0), inputs);
+                    acc.check(&format!("{tag} {n}x{n} scale 2^{k}: (N*M)[{c}][{r}]"), v2, id, 1024.0 * eps * c2.max(1.0), inputs);
+                }
+            }
+        }
+    }
+    let cases = if cfg.tier == Tier::Quick { 3000 } else { 200_000 };
+    let mut acc = Acc::new("c02_scaled_integer_matrices");
+    for i in 0..cases {
+        let mut rng = Rng::for_case(cfg.seed, "native_scaled", i);
+        let n = 2 + rng.below(3) as usize;
+        let mut m = [[0i128; 4]; 4];
+        for c in 0..n {
+            for r in 0..n {
+                m[c][r] = rng.range(-9, 9) as i128;
+            }
+        }
+        let singular = rng.chance(1, 4);
+        if singular {
+            // last column an integer combination of the others, random position
+            let tgt = rng.below(n as u64) as usize;
+            let coef: Vec<i128> = (0..n).map(|_| rng.range(-2, 2) as i128).collect();
+            for r in 0..n {
+                m[tgt][r] = (0..n).filter(|&c| c != tgt).map(|c| coef[c] * m[c][r]).sum();
+            }
+            if rng.bool() {
+                let t = m;
+                for c in 0..n {
+                    for r in 0..n {
+                        m[c][r] = t[r][c];
+                    }
+                }
+            }
+        }
+        // per-type scale windows: entries, determinant, cofactors and inverse all normal
+        let k64 = rng.range(-200, 200) as i32;
+        let k32 = rng.range(-24, 24) as i32;
+        acc.case(if singular { "singular by construction" } else { "generic" });
+        let mm: Vec<Vec<i64>> = (0..n).map(|c| (0..n).map(|r| m[c][r] as i64).collect()).collect();
+        let in64 = || json!({"n": n, "integer_matrix_columns": mm, "scale_log2": k64, "type": "f64", "index": i});
+        let in32 = || json!({"n": n, "integer_matrix_columns": mm, "scale_log2": k32, "type": "f32", "index": i});
+        match cgv_core::fw::catch(|| {
+            let mut local = Acc::new("c02_scaled_integer_matrices");
+            run::<f64>("f64", &m, n, k64, f64::EPSILON, &mut local, &in64);
+            run::<f32>("f32", &m, n, k32, f32::EPSILON as f64, &mut local, &in32);
+            local
+        }) {
+            Ok(l) => {
+                acc.checks += l.checks;
+                acc.worst = acc.worst.max(l.worst);
+                if acc.fail.is_none() {
+                    acc.fail = l.fail;
+                }
+            }
+            Err(p) => acc.truth(&format!("unexpected panic: {p}"), false, &in64),
+        }
+        if acc.failed() {
+            break;
+        }
+    }
+    acc.finish(extra, "i128 Leibniz determinant (exact); double-double residuals of M*N and N*M, allowance 1024 eps * sum_k |m||n|");
+}
+
+/// swap_rows / swap_columns / swap_elements / replace_col / transpose_self on the
+/// native types with entries spread over hundreds of binary orders of magnitude
+/// (and +-inf, MAX, MIN_POSITIVE): "exchange exactly the named elements" means
+/// bit for bit, whatever their size.
+pub fn native_moves(cfg: &cgv_core::fw::RunCfg, extra: &mut cgv_core::fw::Extra) {
+    use serde_json::json;
+    let rounds = if cfg.tier == Tier::Quick { 40 } else { 4000 };
+    let mut checks = 0u64;
+    let mut fail: Option<(String, serde_json::Value)> = None;
+    macro_rules! moves {
+        ($T:ty, $M:ident, $n:expr, $nn:expr, $rng:expr, $span:expr) => {{
+            const N: usize = $n;
+            let mut f = [0 as $T; $nn];
+            for (i, x) in f.iter_mut().enumerate() {
+                let e = $rng.range(-$span, $span) as i32;
+                *x = (($rng.range(1, 4095) as $T) * (2.0 as $T).powi(e)) * if $rng.bool() { -1.0 } else { 1.0 };
+                if $rng.chance(1, 12) {
+                    *x = [<$T>::INFINITY, <$T>::NEG_INFINITY, <$T>::MAX, <$T>::MIN_POSITIVE, 0.0, -0.0][i % 6];
+                }
+            }
+            let m0: $M<$T> = *<&$M<$T>>::from(&f);
+            let bits = |m: &$M<$T>| -> Vec<u64> {
+                let r: &[$T; $nn] = m.as_ref();
+                r.iter().map(|x| x.to_bits() as u64).collect()
+            };
+            let fb = |a: &[$T; $nn]| -> Vec<u64> { a.iter().map(|x| x.to_bits() as u64).collect() };
+            let mut note = |what: &str, got: Vec<u64>, want: Vec<u64>| {
+                checks += 1;
+                if got != want && fail.is_none() {
+                    fail = Some((
+                        format!("{}<{}>::{what}: components changed or misplaced (compared bit for bit)", stringify!($M), stringify!($T)),
+                        json!({"matrix_flat_column_major": f.iter().map(|x| format!("{x:e}")).collect::<Vec<_>>(), "got_bits": got, "want_bits": want}),
+                    ));
+                }
+            };
+            for a in 0..$nn {
+                for b in 0..$nn {
+                    let mut w = m0;
+                    w.swap_elements((a / N, a % N), (b / N, b % N));
+                    let mut e = f;
+                    e.swap(a, b);
+                    note("swap_elements", bits(&w), fb(&e));
+                }
+            }
+            for a in 0..N {
+                for b in 0..N {
+                    let mut w = m0;
+                    w.swap_columns(a, b);
+                    let mut e = f;
+                    for r in 0..N {
+                        e.swap(a * N + r, b * N + r);
+                    }
+                    note("swap_columns", bits(&w), fb(&e));
+                    let mut w = m0;
+                    w.swap_rows(a, b);
+                    let mut e = f;
+                    for c in 0..N {
+                        e.swap(c * N + a, c * N + b);
+                    }
+                    note("swap_rows", bits(&w), fb(&e));
+                }
+            }
+            let mut e = f;
+            for c in 0..N {
+                for r in 0..N {
+                    e[c * N + r] = f[r * N + c];
+                }
+            }
+            let mut w = m0;
+            w.transpose_self();
+            note("transpose_self", bits(&w), fb(&e));
+            note("transpose", bits(&m0.transpose()), fb(&e));
+            for c in 0..N {
+                let mut w = m0;
+                let newc = m0[(c + 1) % N];
+                let old = w.replace_col(c, newc);
+                let mut e = f;
+                for r in 0..N {
+                    e[c * N + r] = f[((c + 1) % N) * N + r];
+                }
+                note("replace_col (installed)", bits(&w), fb(&e));
+                let oc: Vec<u64> = (0..N).map(|r| old[r].to_bits() as u64).collect();
+                let wc: Vec<u64> = (0..N).map(|r| f[c * N + r].to_bits() as u64).collect();
+                note("replace_col (returned)", oc, wc);
+            }
+        }};
+    }
+    for i in 0..rounds {
+        let mut rng = Rng::for_case(cfg.seed, "c02_native_moves", i);
+        moves!(f64, Matrix2, 2, 4, rng, 500);
+        moves!(f64, Matrix3, 3, 9, rng, 500);
+        moves!(f64, Matrix4, 4, 16, rng, 500);
+        moves!(f32, Matrix2, 2, 4, rng, 55);
+        moves!(f32, Matrix3, 3, 9, rng, 55);
+        moves!(f32, Matrix4, 4, 16, rng, 55);
+        if fail.is_some() {
+            break;
+        }
+    }
+    extra.evaluations += checks;
+    extra.sections.insert(
+        "native_exchanges_bitwise".into(),
+        json!({"matrices": rounds * 6, "comparisons": checks, "entries": "m * 2^e, |e| <= 500 (f64) / 55 (f32), one in twelve a special value (+-inf, MAX, MIN_POSITIVE, +-0)", "oracle": "bit equality with the permuted flat array"}),
+    );
+    if let Some((msg, payload)) = fail {
+        extra.violations.push(("native_exchanges".into(), msg, payload));
+    }
+}
+
+pub fn native(cfg: &cgv_core::fw::RunCfg, extra: &mut cgv_core::fw::Extra) {
+    cgv_core::twins::c02(cfg, extra);
+    native_scaled(cfg, extra);
+    native_moves(cfg, extra);
+}
+
 pub const RULE: &str = "square matrices of small rationals in three families decided by the generator: class 0 generic, class 1 exactly singular by construction (one column an integer combination of the others, sometimes rank n-2, random column order and transposition), class 2 the same with one entry perturbed by +-10^-9..10^-12 (tiny determinant, exact in Q), class 4 matrices whose columns are all rational unit vectors from an exact rotation with one column sheared towards another (orthonormal-looking but not orthogonal), class 3 a generic matrix scaled by 2^-8..2^-24 (determinant down to 2^-96, far below machine epsilon, exactly non-zero); mutation histories are 1-8 random swap_rows/swap_columns/swap_elements/replace_col/transpose_self steps with all index pairs including equal ones; non-trivial = all entries non-zero and pairwise distinct (class 0) or any constructed singular/near-singular matrix; distinct = distinct input tuples per clause.";
 pub const ASSUME: &[&str] = &[
     "exact rational arithmetic in i128; a case that overflows i128 is re-run with intervals or counted inconclusive, never judged",
